@@ -358,6 +358,30 @@ pub fn refs_mode<const V: u32>(d: &mut Driver<V>, p: &Params, programs: u64, nop
                     st.add_finalizer(r);
                 }
             } else if c < 90 {
+                if d.rng.chance(1, 3) && !(st.satb && mmtk::verif::concurrent_work_in_progress(mmtk::<V>())) {
+                    // directed: deregister a registered object that has survived a collection while a
+                    // newer candidate is waiting for its first collection (the tables are compacted
+                    // under the processor's scan position), then collect without asking for a
+                    // full-heap collection
+                    let s1 = d.rng.below(ns as u64) as usize;
+                    let s2 = (s1 + 1 + d.rng.below(ns as u64 - 1) as usize) % ns;
+                    let a = d.new_object(m, s1, 0, 64, 0, 8, 0, KIND_PLAIN);
+                    if a == 0 {
+                        continue;
+                    }
+                    st.add_finalizer(a);
+                    d.gc(m, false);
+                    safepoint();
+                    let fresh = d.new_object(m, s2, 0, 48, 0, 8, 0, KIND_PLAIN);
+                    if fresh != 0 {
+                        st.add_finalizer(fresh);
+                        d.set_root(m, s2, 0);
+                    }
+                    let a_now = Driver::<V>::root_get(m, s1);
+                    st.get_for(d, m, a_now);
+                    d.gc(m, false);
+                    continue;
+                }
                 let r = Driver::<V>::root_get(m, *d.rng.pick(&nonnull));
                 st.get_for(d, m, r);
             } else if c < 91 {
